@@ -282,6 +282,7 @@ func (f *Frame) onReturn(st *State, vals []Val, pos token.Pos) {
 		return
 	}
 	env := f.specEnv(f.params, vals, f.entry)
+	env.locals = func(name string) (Val, bool) { return f.resolveLocalAt(name, st) }
 	for _, e := range f.spec.Ensures {
 		label := e.Label
 		if label == "" {
@@ -546,4 +547,29 @@ func (e *Engine) assumeTypeInvs(f *Frame, st *State) {
 		body := env.evalBool(ti.Expr, st, nil)
 		vc.fact(Forall([]Term{self}, Imp(And(Lt(Zero, self), Lt(self, vc.A0)), body)))
 	}
+}
+
+// resolveLocalAt: a source variable with a single SSA definition (never
+// reassigned), usable in postconditions.
+func (f *Frame) resolveLocalAt(name string, st *State) (Val, bool) {
+	refs := f.nameIndex()[name]
+	var v ssa.Value
+	for _, r := range refs {
+		if r.isAddr {
+			return Val{}, false
+		}
+		if v != nil && v != r.v {
+			return Val{}, false // several definitions: ambiguous at a return
+		}
+		v = r.v
+	}
+	if v == nil {
+		return Val{}, false
+	}
+	if _, ok := f.vals[v]; !ok {
+		if _, isConst := v.(*ssa.Const); !isConst {
+			return Val{}, false
+		}
+	}
+	return f.val(v), true
 }
